@@ -279,7 +279,8 @@ fn converters() -> Vec<(&'static str, Box<dyn UnicodeConverter>, u32)> {
         ("cp437", Box::<ascii::CP437Converter>::default(), 256),
         ("atascii", Box::<atascii::CharConverter>::default(), 128),
         ("petscii", Box::<petscii::CharConverter>::default(), 0),
-        ("viewdata", Box::<viewdata::CharConverter>::default(), 0),
+        // the printable codes of the Viewdata / Mode 7 table (0x21..=0x7E): one character each
+        ("viewdata", Box::<viewdata::CharConverter>::default(), 0x7F),
     ]
 }
 
@@ -392,7 +393,7 @@ impl Engine for C18 {
                     ctx.state(f.finish());
                     if back == ch {
                         ok += 1;
-                    } else if code < claimed {
+                    } else if code < claimed && (name != "viewdata" || code > 0x20) {
                         ctx.violation(format!("diff:codepage:{name}:code-roundtrip"), json!({"code": code, "unicode": uni as u32, "back": back as u32}));
                     }
                 }
@@ -406,7 +407,7 @@ impl Engine for C18 {
                 let images: Vec<char> = (0..256u32).map(|c| conv.convert_to_unicode(at(c))).collect();
                 let mut f = Fnv::new();
                 // code -> unicode, [other code -> unicode], unicode -> code
-                for b in 0..claimed {
+                for b in (if name == "viewdata" { 0x21 } else { 0 })..claimed {
                     for a in 0..256u32 {
                         let u = conv.convert_to_unicode(at(b));
                         let _ = conv.convert_to_unicode(at(a));
